@@ -8,6 +8,7 @@ package main
 
 import (
 	"fmt"
+	jsonv2 "github.com/go-json-experiment/json"
 	"math/rand"
 	"os"
 	"strings"
@@ -296,6 +297,45 @@ func driveC14(c *driverCtx) error {
 		}
 	}
 	c.extra["tlc_schemas"] = len(tl)
+	// documents outside the TLC universe: the same named type written out in full more than once (not strictly valid
+	// Avro, but what this library's own schema generation emits), deep nesting of named types
+	for hi, text := range []string{
+		`{"type":"record","name":"Line","fields":[{"name":"from","type":{"type":"record","name":"Point","fields":[{"name":"x","type":"long"},{"name":"y","type":"long"}]}},{"name":"to","type":{"type":"record","name":"Point","fields":[{"name":"x","type":"long"},{"name":"y","type":"long"}]}}]}`,
+		`{"type":"record","name":"Ids","namespace":"org.example","fields":[{"name":"a","type":{"type":"fixed","name":"ID","size":4}},{"name":"b","type":["null",{"type":"fixed","name":"ID","size":4}]},{"name":"c","type":{"type":"array","items":{"type":"fixed","name":"ID","size":4}}}]}`,
+		`{"type":"record","name":"E2","fields":[{"name":"a","type":{"type":"enum","name":"Suit","symbols":["H","S"]}},{"name":"b","type":{"type":"map","values":{"type":"enum","name":"Suit","symbols":["H","S"]}}}]}`,
+	} {
+		sn, err := schemaNodeFromJSON([]byte(text))
+		if err != nil {
+			return fmt.Errorf("harness: handwritten schema %d: %v", hi, err)
+		}
+		emitSchemaParse(c, fmt.Sprintf("C14|parse|handwritten|repeated-named-type-%d", hi), sn, text)
+	}
+	// through the json package (the Schema type implements its unmarshalling interface): the caller's buffer is the
+	// caller's, and is overwritten as soon as the call has returned
+	for si, m := range tl {
+		if si%3 != 0 && !c.thorough() {
+			continue
+		}
+		s := node(m["s"].(map[string]any))
+		var sb strings.Builder
+		render(schemaDoc(s), c.rng, true, si%3, &sb, 0)
+		buf := []byte(sb.String())
+		ev := map[string]any{"op": "schema_parse", "s": s, "text": clipS(sb.String(), 600), "outcome": "ok", "parsed": snode("null", "", "", 0, nil, nil), "marshal": "ok", "remarshalled": s}
+		var sch avro.Schema
+		var err error
+		if p := catch(func() { err = jsonv2.Unmarshal(buf, &sch) }); p != "" {
+			ev["outcome"] = "panic"
+		} else if err != nil {
+			ev["outcome"], ev["err"] = "err", err.Error()
+		} else {
+			for i := range buf {
+				buf[i] = 'x'
+			}
+			ev["parsed"] = projectLibSchema(sch)
+		}
+		c.rec.NewCase()
+		c.rec.Emit(fmt.Sprintf("C14|unmarshal-then-reuse-buffer|%s", nodeStr(s, "k")), ev)
+	}
 	// malformed JSON: every proper prefix, trailing data, unbalanced brackets
 	for di, d := range docs {
 		if !c.thorough() && di%4 != 0 {
